@@ -72,6 +72,16 @@ pub fn check_step(c: &StepCase) -> Verdict {
     if next[16..].iter().any(|b| *b != 0) {
         return fail("wiped-seed", format!("seed area of the wiped key is {}", gen::hex(&next[16..])));
     }
+    // the in-memory key object ends up wiped as well
+    for e in [KeyEntry::TrySign, KeyEntry::TrySignWithAuxNone] {
+        let (o5, after5) = libapi::sign_via_key(c.hash, &msg, &blob, e, None);
+        if !o5.is_ok() {
+            return fail(format!("last-leaf try_sign-{}", o5.kind()), format!("SigningKey::{:?} at the last leaf: {} {:?}", e, o5.kind(), o5.panic_msg()));
+        }
+        if after5.as_deref() != Some(&next[..]) {
+            return fail("wiped-key-object", format!("SigningKey after its last signature is {} instead of the wiped key", after5.map(|a| gen::hex(&a)).unwrap_or_default()));
+        }
+    }
     // from then on: refuse, no callback, nothing released
     let (o2, calls2) = libapi::sign(c.hash, &msg, next, Cb::Accept, None);
     if !o2.is_err() || !calls2.is_empty() {
@@ -113,6 +123,16 @@ pub fn run(ctx: &Ctx) {
             }
             for c in 0..total {
                 items.push(StepCase { hash: *h, levels: s.clone(), counter: c });
+            }
+        }
+    }
+    // the last leaf (wipe) for every hash variant, whatever the tier
+    for s in shapes.iter().take(6) {
+        let total: u64 = 1u64 << s.iter().map(|l| l.1).sum::<u32>();
+        for h in ALL_HASHES {
+            if !hashes.contains(&h) {
+                items.push(StepCase { hash: h, levels: s.clone(), counter: total - 1 });
+                items.push(StepCase { hash: h, levels: s.clone(), counter: total - 2 });
             }
         }
     }
